@@ -8,4 +8,5 @@ MODULES = [
     "specs.pipeline",
     "specs.analysis",
     "specs.cli",
+    "specs.findings",
 ]
